@@ -780,6 +780,43 @@ def rule_m12(F):
     return r
 
 
+def rule_m13(F):
+    """The script built-ins that look at a whole list at once (`join`) work on ONE snapshot of it (`to_vec`: a single lock, M12) -
+    not on the by-index iterator or `get`, which lock per element: a `swap` through an alias between two elements yields a result
+    the list never had (an element twice, another missing).  Shared with C16.M6."""
+    from .. import registry
+    r = RuleResult("C15.M13", "whole-list built-ins (join) read the list through one snapshot (to_vec), not element by element", floor=1)
+    regs = [g for g in registry.registrations(F) if g["name"] in ("join",) and g["body"]]
+    if not regs:
+        r.missing("the registration of the list built-in `join`")
+        return r
+    for g in regs:
+        b = F.body(g["body"])
+        if b is None or not b.mir:
+            r.missing("body of built-in %s" % g["name"])
+            continue
+        fam = [b] + [F.body(q) for q in F.paths() if q.startswith(b.path + "::{closure")]
+        snap, per = 0, []
+        for x in fam:
+            if x is None or not x.mir:
+                continue
+            for _, t in mir.calls(x):
+                c = mir.callee(t) or ""
+                gargs = " ".join(t["f"].get("gargs") or [])
+                if c.startswith("value::list::boundary::List::<") and hir.last(c) == "to_vec":
+                    snap += 1
+                elif "value::list::boundary::IntoIter" in gargs or "value::list::boundary::IntoIter" in c or \
+                        (c.startswith("value::list::boundary::List::<") and hir.last(c) in ("get", "len", "into_iter", "iter")) or \
+                        ("value::list::boundary::List<" in gargs and hir.last(mir.callee_def(t) or "") in ("into_iter", "next", "extend", "collect", "fold", "for_each", "map")):
+                    per.append(hir.last(mir.callee_def(t) or c))
+        r.inst("built-in %s" % g["name"], {"body": b.path, "snapshots": snap, "per_element_reads": per})
+        if snap != 1 or per:
+            r.bad(b.path, "%s reads the list element by element" % g["name"], relfile(b.file), b.line,
+                  "the built-in `%s` takes %d snapshot(s) of the list and reads it through %s: every element is read under its own lock acquisition, so a concurrent swap gives a result "
+                  "the list never had" % (g["name"], snap, per or "nothing else"))
+    return r
+
+
 def rules(ctx):
     F = ctx["F"]
     bodies = _scope(F)
@@ -794,7 +831,7 @@ def rules(ctx):
                    "value::list::ErasedList::concat"):
         if not F.has(anchor):
             m1.missing(anchor)
-    return [m1, m2, rule_m4(F), rule_m5(F), rule_m6(F), m7, rule_m8(F), rule_m9(F), rule_m10(F), rule_m11(F), rule_m12(F)]
+    return [m1, m2, rule_m4(F), rule_m5(F), rule_m6(F), m7, rule_m8(F), rule_m9(F), rule_m10(F), rule_m11(F), rule_m12(F), rule_m13(F)]
 
 
 def canary(C):
